@@ -663,7 +663,236 @@ theorem unflattenC_shapes (refs : List (List (Item β))) (ss : List Nat) (flat :
         have := ih ss (flat.drop s) t (by simpa using hlen) ht
         simp only [List.map_cons, this, (unflatten_shapes ref _ x hu).1]
 
+/-- **every entry is read at the offset its predecessors claim** — scalars included (one slot each):
+unflattening by `X ++ Y` is unflattening by `X`, then by `Y` from offset `totalSize X` on -/
+theorem totalSize_cons (it : Item β) (X : List (Item β)) : totalSize (it :: X) = it.size + totalSize X := by
+  simp [totalSize]
+
+theorem unflatten_append (X Y : List (Item β)) (flat : List β) :
+    unflatten flat (X ++ Y) =
+      (unflatten flat X).bind (fun X' => (unflatten (flat.drop (totalSize X)) Y).map (fun Y' => X' ++ Y')) := by
+  induction X generalizing flat with
+  | nil =>
+    have h0 : totalSize ([] : List (Item β)) = 0 := rfl
+    simp only [List.nil_append, unflatten, h0, List.drop_zero, Option.bind_some]
+    cases unflatten flat Y <;> rfl
+  | cons it X ih =>
+    cases it with
+    | scalar x =>
+      cases flat with
+      | nil => simp [unflatten]
+      | cons a fs =>
+        have hd : List.drop (totalSize (Item.scalar x :: X)) (a :: fs) = List.drop (totalSize X) fs := by
+          rw [totalSize_cons, show (Item.scalar x).size + totalSize X = totalSize X + 1 by simp [Item.size]; omega,
+            List.drop_succ_cons]
+        rw [hd]
+        simp only [List.cons_append, unflatten, ih fs]
+        generalize unflatten (List.drop (totalSize X) fs) Y = oy
+        cases unflatten fs X with
+        | none => rfl
+        | some X' => cases oy <;> rfl
+    | arr sh d =>
+      have hd : List.drop (totalSize (Item.arr sh d :: X)) flat = List.drop (totalSize X) (List.drop (prodL sh) flat) := by
+        rw [totalSize_cons, List.drop_drop]; rfl
+      rw [hd]
+      simp only [List.cons_append, unflatten]
+      split_ifs with hlen
+      · rfl
+      · rw [ih]
+        generalize unflatten (List.drop (totalSize X) (List.drop (prodL sh) flat)) Y = oy
+        cases unflatten (List.drop (prodL sh) flat) X with
+        | none => rfl
+        | some X' => cases oy <;> rfl
+
+/-- **lists mixing scalars and arrays in every order**: an entry behind ANY prefix of scalars and
+arrays gets exactly its own numbers back (the general round trip, read at one entry) -/
+theorem unflatten_entry_after_prefix (P : List (Item β)) (it : Item β) (S : List (Item β))
+    (hwf : ∀ i ∈ P ++ it :: S, i.wf) :
+    unflatten (flatten (P ++ it :: S)) (P ++ it :: S) = some (P ++ it :: S) := by
+  have := unflatten_flatten (P ++ it :: S) hwf []
+  rwa [List.append_nil] at this
+
+/-! ### Coupler through a history of resizes -/
+
+theorem flattenC_sizes_length (Xs : List (List (Item β))) : (flattenC Xs).2.length = Xs.length := by
+  simp [flattenC]
+
+/-- the iterator hands back a flat vector of the length of the latest flatten (or longer): the
+Coupler can always cut it into the shapes the models supplied last -/
+theorem unflattenC_isSome (Xs : List (List (Item β))) (hwf : ∀ X ∈ Xs, ∀ it ∈ X, it.wf) (flat : List β)
+    (hlen : (flattenC Xs).1.length ≤ flat.length) :
+    ∃ Ys, unflattenC flat (flattenC Xs).2 Xs = some Ys := by
+  induction Xs generalizing flat with
+  | nil => exact ⟨[], rfl⟩
+  | cons X Xs ih =>
+    have hX := hwf X List.mem_cons_self
+    simp only [flattenC, List.map_cons, List.flatten_cons, List.length_append] at hlen ih ⊢
+    simp only [unflattenC]
+    obtain ⟨Y, hY⟩ := unflatten_isSome X (flat.take (flatten X).length)
+      (by rw [List.length_take, ← flatten_length X hX]; omega)
+    obtain ⟨Ys, hYs⟩ := ih (fun Z hZ => hwf Z (List.mem_cons_of_mem _ hZ)) (flat.drop (flatten X).length)
+      (by rw [List.length_drop]; omega)
+    exact ⟨Y :: Ys, by rw [hY]; simp only; rw [hYs]; rfl⟩
+
+/-- one iteration: whatever sizes were on record before, the state the models supplied comes back
+exactly (flattenX records the sizes of THIS state before unflattenX slices) -/
+theorem deliver_ok (c : Coupler) (Xs : List (List (Item β))) (hwf : ∀ X ∈ Xs, ∀ it ∈ X, it.wf) :
+    (c.deliver Xs).1 = some Xs := by
+  simp only [Coupler.deliver, Coupler.flattenX, Coupler.unflattenX]
+  exact unflattenC_flattenC Xs hwf
+
+/-- **Coupler, every history of resizes**: whatever sequence of differently sized states the
+sub-models supply (initial state, then what each `postProcess` returned: grown, shrunk, several
+times, several models at once), every one of them is delivered to the callbacks exactly as supplied -/
+theorem deliverAll_history (c : Coupler) (hist : List (List (List (Item β))))
+    (hwf : ∀ Xs ∈ hist, ∀ X ∈ Xs, ∀ it ∈ X, it.wf) :
+    c.deliverAll hist = hist.map some := by
+  induction hist generalizing c with
+  | nil => rfl
+  | cons Xs rest ih =>
+    simp only [Coupler.deliverAll, List.map_cons]
+    rw [deliver_ok c Xs (hwf Xs List.mem_cons_self), ih _ (fun Z hZ => hwf Z (List.mem_cons_of_mem _ hZ))]
+
+/-- the sizes on record after a history are those of the LATEST flatten -/
+theorem afterHistory_sizes (c : Coupler) (hist : List (List (List (Item β)))) (Xs : List (List (Item β))) :
+    (c.afterHistory (hist ++ [Xs])).sizeRef = some (flattenC Xs).2 := by
+  induction hist generalizing c with
+  | nil => rfl
+  | cons Z rest ih => exact ih _
+
+/-- **round trip with the sizes of the latest flatten, for every history of resizes before it** -/
+theorem unflattenC_flattenC_history (c : Coupler) (hist : List (List (List (Item β))))
+    (Xs : List (List (Item β))) (hwf : ∀ X ∈ Xs, ∀ it ∈ X, it.wf) :
+    (c.afterHistory (hist ++ [Xs])).unflattenX (flattenC Xs).1 Xs = some Xs := by
+  simp only [Coupler.unflattenX, afterHistory_sizes]
+  exact unflattenC_flattenC Xs hwf
+
+/-- … and for ANY flat vector of that length (what the iterator returns) the callbacks of every
+sub-model receive the structure and shapes that model supplied last -/
+theorem unflattenC_history_shapes (c : Coupler) (hist : List (List (List (Item β))))
+    (Xs : List (List (Item β))) (hwf : ∀ X ∈ Xs, ∀ it ∈ X, it.wf) (flat : List β)
+    (hlen : flat.length = (flattenC Xs).1.length) :
+    ∃ Ys, (c.afterHistory (hist ++ [Xs])).unflattenX flat Xs = some Ys ∧ Ys.map shapes = Xs.map shapes := by
+  simp only [Coupler.unflattenX, afterHistory_sizes]
+  obtain ⟨Ys, hYs⟩ := unflattenC_isSome Xs hwf flat (by omega)
+  exact ⟨Ys, hYs, unflattenC_shapes Xs _ flat Ys (flattenC_sizes_length Xs) hYs⟩
+
+/-- **slicing with stale sizes fails / misdelivers** (why the sizes of the LATEST flatten are needed):
+model 0 of two coupled models grows from 3 to 4 entries (`grown`), or shrinks from 3 to 2
+(`shrunk`).  With the sizes recorded when the state still was `first`, the flat vector of the new
+state — which has exactly the right total length — cannot be cut into the supplied shapes
+(`none`: NumPy's reshape error), and in the shrunk case the slice cut for model 1 is `[8, 9]`,
+not its own entries `[7, 8, 9]`; with the sizes of the latest flatten both come back exactly. -/
+theorem stale_sizes_misdeliver :
+    let first : List (List (Item ℚ)) := [[.arr [3] [1, 2, 3]], [.scalar 7, .arr [2] [8, 9]]]
+    let grown : List (List (Item ℚ)) := [[.arr [4] [1, 2, 3, 4]], [.scalar 7, .arr [2] [8, 9]]]
+    let shrunk : List (List (Item ℚ)) := [[.arr [2] [1, 2]], [.scalar 7, .arr [2] [8, 9]]]
+    (flattenC first).2 = [3, 3] ∧
+    unflattenC (flattenC grown).1 (flattenC first).2 grown = none ∧
+    unflattenC (flattenC shrunk).1 (flattenC first).2 shrunk = none ∧
+    ((flattenC shrunk).1.drop 3).take 3 = [8, 9] ∧ flatten [Item.scalar (7 : ℚ), .arr [2] [8, 9]] = [7, 8, 9] ∧
+    unflattenC (flattenC grown).1 (flattenC grown).2 grown = some grown ∧
+    unflattenC (flattenC shrunk).1 (flattenC shrunk).2 shrunk = some shrunk := by
+  decide +kernel
+
 end flat
+
+/-! ### time bookkeeping: the clock advances by the step the iterator used -/
+
+section clock
+variable {V : Type}
+variable (tf dtmin : α) (propose : List α → Dt α) (stopAt : List α → Bool)
+
+theorem stepDt_eq (s : St α) : stepDt tf dtmin propose s = dtOf tf dtmin propose s := rfl
+
+/-- **t_{k+1} = t_k + dt_k**: the time handed to `postProcess` is the previous time plus the step
+that is recorded for this pass — the one the iterator was given for the state update (`stepX`) -/
+theorem step_time_bookkeeping (s : St α) :
+    (step tf dtmin propose stopAt s).cur = s.cur + stepDt tf dtmin propose s ∧
+    (step tf dtmin propose stopAt s).steps.head? = some (s.cur, stepDt tf dtmin propose s) := ⟨rfl, rfl⟩
+
+theorem stepX_fst (iter : α → α → V → V) (s : St α × V) :
+    (stepX tf dtmin propose stopAt iter s).1 = step tf dtmin propose stopAt s.1 := rfl
+
+theorem stepX_snd (iter : α → α → V → V) (s : St α × V) :
+    (stepX tf dtmin propose stopAt iter s).2 = iter (stepDt tf dtmin propose s.1) s.1.cur s.2 := rfl
+
+/-- the loop with the state carried along is the time loop on its first component: every theorem
+above about `run` / `solve` holds for real runs with a state -/
+theorem runX_fst (iter : α → α → V → V) (n : Nat) (s : St α × V) :
+    (runX tf dtmin propose stopAt iter n s).1 = run tf dtmin propose stopAt n s.1 := by
+  induction n generalizing s with
+  | zero => rfl
+  | succ n ih =>
+    unfold runX run
+    split_ifs with h
+    · rw [ih, stepX_fst]
+    · rfl
+
+theorem solveX_fst (t0 minFrac maxFrac : α) (iter : α → α → V → V) (x0 : V) (fuel : Nat) :
+    (solveX t0 tf minFrac maxFrac propose stopAt iter x0 fuel).1 = solve t0 tf minFrac maxFrac propose stopAt fuel :=
+  runX_fst tf _ propose stopAt iter fuel _
+
+/-- a right-hand side f ≡ c: both built-in iterators add exactly c·dt -/
+theorem euler_const_step (c dt t x : α) : (eulerIter scalarOps (fun _ _ => c) dt t x).xnew = x + c * dt := by
+  simp only [eulerIter, updateX, scalarOps]; ring
+
+theorem rk4_const_step (c dt t x : α) : (rk4Iter scalarOps (fun _ _ => c) dt t x).xnew = x + c * dt := by
+  simp only [rk4Iter, updateX, scalarOps]; ring
+
+/-- loop invariant for a constant right-hand side: `x − c·currTime` never changes, for every
+proposal function, stop schedule and number of passes -/
+theorem runX_const (c : α) (iter : α → α → α → α) (hiter : ∀ dt t x, iter dt t x = x + c * dt)
+    (n : Nat) (s : St α × α) :
+    (runX tf dtmin propose stopAt iter n s).2 - c * (runX tf dtmin propose stopAt iter n s).1.cur
+      = s.2 - c * s.1.cur := by
+  induction n generalizing s with
+  | zero => rfl
+  | succ n ih =>
+    unfold runX
+    split_ifs with h
+    · rw [ih, stepX_snd, stepX_fst, (step_time_bookkeeping tf dtmin propose stopAt s.1).1, hiter]; ring
+    · rfl
+
+/-- **the state of an f ≡ c model after any run is x0 + c·(final time − t0)**, so in particular for
+f ≡ 1 the state IS the clock: `x = x0 + (currTime − t0)` after every pass.  A clock that is moved
+without the state (or a state advanced by another step than the clock) breaks this equation. -/
+theorem solveX_const (t0 minFrac maxFrac c : α) (iter : α → α → α → α)
+    (hiter : ∀ dt t x, iter dt t x = x + c * dt) (x0 : α) (fuel : Nat) :
+    (solveX t0 tf minFrac maxFrac propose stopAt iter x0 fuel).2
+      = x0 + c * ((solveX t0 tf minFrac maxFrac propose stopAt iter x0 fuel).1.cur - t0) := by
+  have := runX_const tf (minFrac * (tf - t0)) propose stopAt c iter hiter fuel (initSt t0 tf maxFrac, x0)
+  unfold solveX
+  simp only [initSt] at this ⊢
+  linarith
+
+/-- f ≡ 1 with the explicit Euler iterator and with the Runge-Kutta iterator: state = x0 + (time − t0) -/
+theorem solveX_clock_euler (t0 minFrac maxFrac x0 : α) (fuel : Nat) :
+    (solveX t0 tf minFrac maxFrac propose stopAt
+        (fun dt t x => (eulerIter scalarOps (fun _ _ => (1 : α)) dt t x).xnew) x0 fuel).2
+      = x0 + ((solveX t0 tf minFrac maxFrac propose stopAt
+        (fun dt t x => (eulerIter scalarOps (fun _ _ => (1 : α)) dt t x).xnew) x0 fuel).1.cur - t0) := by
+  have := solveX_const tf propose stopAt t0 minFrac maxFrac 1 _ (fun dt t x => euler_const_step 1 dt t x) x0 fuel
+  rw [this]; ring
+
+theorem solveX_clock_rk4 (t0 minFrac maxFrac x0 : α) (fuel : Nat) :
+    (solveX t0 tf minFrac maxFrac propose stopAt
+        (fun dt t x => (rk4Iter scalarOps (fun _ _ => (1 : α)) dt t x).xnew) x0 fuel).2
+      = x0 + ((solveX t0 tf minFrac maxFrac propose stopAt
+        (fun dt t x => (rk4Iter scalarOps (fun _ _ => (1 : α)) dt t x).xnew) x0 fuel).1.cur - t0) := by
+  have := solveX_const tf propose stopAt t0 minFrac maxFrac 1 _ (fun dt t x => rk4_const_step 1 dt t x) x0 fuel
+  rw [this]; ring
+
+/-- … and when the run arrives (model never stops, N·minFrac ≥ 1) the state is exactly x0 + (tf − t0) -/
+theorem solveX_clock_at_end (t0 minFrac maxFrac : α) (iter : α → α → α → α)
+    (hiter : ∀ dt t x, iter dt t x = x + dt) (x0 : α)
+    (h : t0 < tf) (hmin : 0 < minFrac) (hmm : minFrac ≤ maxFrac)
+    (hns : ∀ hst, stopAt hst = false) (N : Nat) (hN : 1 ≤ (N : α) * minFrac) :
+    (solveX t0 tf minFrac maxFrac propose stopAt iter x0 N).2 = x0 + (tf - t0) := by
+  have h1 := solveX_const tf propose stopAt t0 minFrac maxFrac 1 iter (by intro dt t x; rw [hiter]; ring) x0 N
+  rw [h1, solveX_fst, solve_reaches_tf t0 tf minFrac maxFrac propose stopAt h hmin hmm hns N hN]; ring
+
+end clock
 
 /-! ### non-vacuity: the hypotheses are satisfiable and the statements are about real runs -/
 
@@ -686,6 +915,43 @@ open KawinV.Flatten in
 example : unflatten (flatten [Item.scalar (1 : ℚ), .arr [2, 2] [2, 3, 4, 5], .arr [1] [6]])
     [Item.scalar (0 : ℚ), .arr [2, 2] [0, 0, 0, 0], .arr [1] [0]]
       = some [Item.scalar 1, .arr [2, 2] [2, 3, 4, 5], .arr [1] [6]] := by
+  decide +kernel
+
+/- the named layouts mixing scalars and arrays: `[float, float]`, `[float, array]`, `[array, float, array]` -/
+open KawinV.Flatten in
+example :
+    unflatten (flatten [Item.scalar (1 : ℚ), .scalar 2]) [Item.scalar (0 : ℚ), .scalar 0] = some [Item.scalar 1, .scalar 2] ∧
+    unflatten (flatten [Item.scalar (1 : ℚ), .arr [2] [2, 3]]) [Item.scalar (0 : ℚ), .arr [2] [0, 0]]
+      = some [Item.scalar 1, .arr [2] [2, 3]] ∧
+    unflatten (flatten [Item.arr [2] [(1 : ℚ), 2], .scalar 3, .arr [1] [4]]) [Item.arr [2] [(0 : ℚ), 0], .scalar 0, .arr [1] [0]]
+      = some [Item.arr [2] [1, 2], .scalar 3, .arr [1] [4]] := by
+  decide +kernel
+
+/- a history of resizes (model 0: 3 → 4 → 2 entries, model 1 loses its array in the last state),
+starting from a Coupler that never flattened: every supplied state is delivered as supplied -/
+open KawinV.Flatten in
+example :
+    Coupler.new.deliverAll
+      [[[Item.arr [3] [(1 : ℚ), 2, 3]], [.scalar 7, .arr [2] [8, 9]]],
+       [[Item.arr [4] [(1 : ℚ), 2, 3, 4]], [.scalar 7, .arr [2] [8, 9]]],
+       [[Item.arr [2] [(1 : ℚ), 2]], [.scalar 7, .arr [0] []]]]
+    = [some [[Item.arr [3] [(1 : ℚ), 2, 3]], [.scalar 7, .arr [2] [8, 9]]],
+       some [[Item.arr [4] [(1 : ℚ), 2, 3, 4]], [.scalar 7, .arr [2] [8, 9]]],
+       some [[Item.arr [2] [(1 : ℚ), 2]], [.scalar 7, .arr [0] []]]] := by
+  decide +kernel
+
+/- before any flattenX the Coupler cannot unflatten (the attribute does not exist) -/
+open KawinV.Flatten in
+example : Coupler.new.unflattenX [(1 : ℚ)] [[Item.scalar 0]] = none := rfl
+
+/-- the clock state: f ≡ 1, Euler, t0 = 1, tf = 3, x0 = 5, steps 3/4, 3/4, 1/2: the state after the
+run is 5 + (3 − 1) = 7 and the hypothesis `hiter` of `solveX_const` holds for both iterators
+(`euler_const_step`, `rk4_const_step`) -/
+example :
+    (solveX (1 : ℚ) 3 (1/4) 1 (fun _ => .fin (3/4)) (fun _ => false)
+      (fun dt t x => (eulerIter scalarOps (fun _ _ => (1 : ℚ)) dt t x).xnew) 5 10).2 = 7 ∧
+    (solveX (1 : ℚ) 3 (1/4) 1 (fun _ => .fin (3/4)) (fun _ => false)
+      (fun dt t x => (rk4Iter scalarOps (fun _ _ => (1 : ℚ)) dt t x).xnew) 5 10).1.times = [3, 5/2, 7/4] := by
   decide +kernel
 
 end KawinV.Props.C05
